@@ -42,6 +42,9 @@ ASSUMPTIONS = [
     "per-point look-ups use loads proportional to the per-point maxima (all points in the same class), the FKM "
     "nonlinear use case; non-proportional per-point loads are outside the check",
     "number_of_bins = 1 fails at construction (no table, no look-up): counted, not judged",
+    "the quantified load range is (-max, max]: L = -max (-2 max) is executed and counted, not judged",
+    "above the maximum any exception type counts as 'raises an error' (types are counted); inside the range any "
+    "exception is a violation",
 ]
 C = 10.0
 DEFAULT_TOL = 1e-4
